@@ -19,6 +19,7 @@ RULE = (
     "Every sequence up to length L is run from scratch on a new EventDispatcher: each dispatch's invocation log is compared "
     "with the model, and after the last step every query (has_listeners per event and overall, get_listeners per event and "
     "overall, get_listener_priority of every listener for every event) is compared. Random sequences of length 6-40 on top. "
+    "Also: odd event names (empty, blank, digit, dotted, non-ASCII, 'None', case pair); application-level events whose listeners read the event payload. "
     "non-trivial = >=2 registrations for one event followed by a dispatch of it, with a registration after an earlier "
     "dispatch/query of that event or a stopping listener; distinct by operation tuple."
 )
